@@ -80,8 +80,15 @@ def run(ctx) -> None:
         for n in ast.walk(f.node):
             if isinstance(n, ast.Subscript) and unparse(n.value) == "raw_cfg" and const_str(n.slice):
                 consumed.add(const_str(n.slice))
-            if isinstance(n, ast.Call) and unparse(n.func) in ("raw_cfg.get", "_parse_cfg_strings") and n.args:
-                k = const_str(n.args[0]) or (const_str(n.args[1]) if len(n.args) > 1 else None)
+            if isinstance(n, ast.Call) and unparse(n.func) == "raw_cfg.get" and n.args:
+                k = const_str(n.args[0])
+                if k:
+                    consumed.add(k)
+            if isinstance(n, ast.Call) and unparse(n.func) == "_parse_cfg_strings":
+                helper = prog.function("config._parse_cfg_strings")
+                from sa.model import call_arg as _call_arg
+                ka = _call_arg(n, helper, helper.params[1], pos=1)
+                k = const_str(ka) if ka is not None else None
                 if k:
                     consumed.add(k)
     ctx.floor("R2", "keys consumed by the normaliser", len(consumed), 11)
